@@ -267,6 +267,8 @@ package rosmar
 //@   ensures [C20:queue.push.unlocked] any: nolocks()
 //@
 //@ fn (*queue[T]).close
+//@   modular
+//@   flag writes=q.list
 //@   ensures [C16:queue.close.closed]   listnil(q.list)
 //@   ensures [C16:queue.close.wakes]    !old(listnil(q.list)) ==> count("broadcast") == 1
 //@   ensures [C20:queue.close.unlocked] any: nolocks()
@@ -307,17 +309,17 @@ package rosmar
 //@ fn (*dcpFeed).writeCheckpoint
 //@   modular
 //@   let on = feed.args.CheckpointPrefix != "" && feed.lastCasChanged
-//@   ensures [C15:writeCheckpoint.guard]  !on ==> count("call:Set") == 0 && err == nil
-//@   ensures [C15:writeCheckpoint.once]   on ==> count("call:Set") == 1
-//@   ensures [C15:writeCheckpoint.value]  on ==> callarg("Set", 4).LastSeq == feed.lastCas
-//@   ensures [C15:writeCheckpoint.key]    on ==> callarg("Set", 1) == feed.args.CheckpointPrefix + ":" + feed.args.ID
-//@   ensures [C15,C11:writeCheckpoint.coll] on ==> callarg("Set", 0) == feed.collection
+//@   ensures [C15:writeCheckpoint.guard]  !on ==> count("call:Collection.Set") == 0 && err == nil
+//@   ensures [C15:writeCheckpoint.once]   on ==> count("call:Collection.Set") == 1
+//@   ensures [C15:writeCheckpoint.value]  on ==> callarg("Collection.Set", 4).LastSeq == feed.lastCas
+//@   ensures [C15:writeCheckpoint.key]    on ==> callarg("Collection.Set", 1) == feed.args.CheckpointPrefix + ":" + feed.args.ID
+//@   ensures [C15,C11:writeCheckpoint.coll] on ==> callarg("Collection.Set", 0) == feed.collection
 //@
 //@ fn (*dcpFeed).readCheckpoint
 //@   modular
 //@   flag writes=feed.lastCas
-//@   ensures [C15:readCheckpoint.key]     feed.args.CheckpointPrefix != "" ==> count("call:Get") == 1 && callarg("Get", 1) == feed.args.CheckpointPrefix + ":" + feed.args.ID && callarg("Get", 0) == feed.collection
-//@   ensures [C15:readCheckpoint.noprefix] feed.args.CheckpointPrefix == "" ==> count("call:Get") == 0 && feed.lastCas == old(feed.lastCas) && err == nil
+//@   ensures [C15:readCheckpoint.key]     feed.args.CheckpointPrefix != "" ==> count("call:Collection.Get") == 1 && callarg("Collection.Get", 1) == feed.args.CheckpointPrefix + ":" + feed.args.ID && callarg("Collection.Get", 0) == feed.collection
+//@   ensures [C15:readCheckpoint.noprefix] feed.args.CheckpointPrefix == "" ==> count("call:Collection.Get") == 0 && feed.lastCas == old(feed.lastCas) && err == nil
 //@   ensures [C15:readCheckpoint.frame]   db == old(db)
 //@
 //@ fn (*dcpFeed).run
@@ -327,7 +329,7 @@ package rosmar
 //@   loop 1 body [C15:run.changed]      feed.lastCasChanged <==> (athead(feed.lastCasChanged) || delivered().Cas > athead(feed.lastCas))
 //@   ensures [C16:run.done-closed-once] !isnull(feed.args.DoneChan) ==> count("closechan") == 1
 //@   ensures [C16:run.done-absent]      isnull(feed.args.DoneChan) ==> count("closechan") == 0
-//@   ensures [C15:run.checkpoint]       count("call:writeCheckpoint") == (if feed.lastCasChanged then 1 else 0)
+//@   ensures [C15:run.checkpoint]       count("call:dcpFeed.writeCheckpoint") == (if feed.lastCasChanged then 1 else 0)
 //@   ensures [C20:run.unlocked]         any: nolocks()
 //@
 //@ fn (*Collection).StartDCPFeed
@@ -335,13 +337,20 @@ package rosmar
 //@   requires forall o: DocId :: DocInv(docAt(o)) && (docAt(o).present ==> docAt(o).exp == 0 || docAt(o).exp > 2592000)
 //@   let bf = args.Backfill != 18446744073709551615
 //@   let resume = args.Backfill == 1
-//@   ensures [C15:StartDCPFeed.resume-needs-prefix] resume && args.CheckpointPrefix == "" ==> result != nil && count("spawn") == 0 && count("call:enqueueBackfillEvents") == 0
-//@   ensures [C15:StartDCPFeed.resume-from] result == nil && resume ==> count("call:readCheckpoint") == 1 && callarg("enqueueBackfillEvents", 1) == (callarg("readCheckpoint", 0).lastCas + 1) % 18446744073709551616
-//@   ensures [C09:StartDCPFeed.backfill-from] result == nil && bf && !resume ==> callarg("enqueueBackfillEvents", 1) == args.Backfill
-//@   ensures [C09:StartDCPFeed.keysonly]      result == nil && bf ==> callarg("enqueueBackfillEvents", 2) == args.KeysOnly && callarg("enqueueBackfillEvents", 0) == c
-//@   ensures [C09:StartDCPFeed.markers]       result == nil && bf ==> pushes()[0].opcode == 0 && pushes()[1].opcode == 1 && pushpos(0) < callpos("enqueueBackfillEvents") && callpos("enqueueBackfillEvents") < pushpos(1)
+//@   ensures [C15:StartDCPFeed.resume-needs-prefix] resume && args.CheckpointPrefix == "" ==> result != nil && count("spawn") == 0 && count("call:Collection.enqueueBackfillEvents") == 0
+//@   ensures [C15:StartDCPFeed.resume-from] result == nil && resume ==> count("call:dcpFeed.readCheckpoint") == 1 && callarg("Collection.enqueueBackfillEvents", 1) == (callarg("dcpFeed.readCheckpoint", 0).lastCas + 1) % 18446744073709551616
+//@   ensures [C09:StartDCPFeed.backfill-from] result == nil && bf && !resume ==> callarg("Collection.enqueueBackfillEvents", 1) == args.Backfill
+//@   ensures [C09:StartDCPFeed.keysonly]      result == nil && bf ==> callarg("Collection.enqueueBackfillEvents", 2) == args.KeysOnly && callarg("Collection.enqueueBackfillEvents", 0) == c
+//@   ensures [C09:StartDCPFeed.markers]       result == nil && bf ==> pushes()[0].opcode == 0 && pushes()[1].opcode == 1 && pushpos(0) < callpos("Collection.enqueueBackfillEvents") && callpos("Collection.enqueueBackfillEvents") < pushpos(1)
 //@   ensures [C09,C16:StartDCPFeed.push-count] result == nil ==> lenlist(pushes()) == (if bf then 2 else 0) + (if args.Dump then 1 else 0)
 //@   ensures [C16:StartDCPFeed.dump-eof]      (result == nil && args.Dump && bf ==> pushes()[2].isnil) && (result == nil && args.Dump && !bf ==> pushes()[0].isnil)
 //@   ensures [C08,C16:StartDCPFeed.spawned]   result == nil ==> count("spawn") == 1
-//@   ensures [C09:StartDCPFeed.nobackfill]    !bf ==> count("call:enqueueBackfillEvents") == 0
+//@   ensures [C09:StartDCPFeed.nobackfill]    !bf ==> count("call:Collection.enqueueBackfillEvents") == 0
 //@   ensures [C20:StartDCPFeed.unlocked]      any: nolocks()
+//@
+//@ fn (*Collection)._stopFeeds
+//@   loop 1 invariant [C16:stopFeeds.loop] true
+//@   loop 1 body [C16:stopFeeds.closes-each] iter("call:queue.close") == 1
+//@   ensures [C11,C16:stopFeeds.keeps-map]   !isnull(c.bucket.collectionFeeds)
+//@   ensures [C11,C16:stopFeeds.only-own]    count("mapdelete") == 1 && count("mapupdate") == 0
+//@   ensures [C20:stopFeeds.nopanic-locks]   any: count("lock") == count("unlock")
